@@ -70,15 +70,23 @@ def fmtD (n : Nat) : String := toString n
 /-- float64(n) for n < 2^64 is the correctly rounded conversion (C cast), as in Go -/
 def floatOfNat (n : Nat) : Float := n.toUInt64.toFloat
 
-instance : ScoreField Float where
-  log := Float.log
+/-- IEEE binary64 with a given `log` (the driver passes libm's `Float.log`, or that `log` snapped to the value the
+implementation printed when the two are within 4 ulp — Go's `math.Log` is a pure-Go routine and may differ from libm
+in the last place; every other operation is required to agree bit for bit). Deliberately NOT a global instance. -/
+@[instance_reducible] def floatField (logf : Float → Float) : ScoreField Float where
+  add := Float.add
+  sub := Float.sub
+  mul := Float.mul
+  div := Float.div
+  log := logf
   ofNat := floatOfNat
   lit m e := if e == 0 then floatOfNat m else OfScientific.ofScientific m true e
   beq a b := a == b
 
 /-! ## bit patterns, ulp distance -/
 
-def fbits (x : Float) : String := toHex 16 x.toBits.toNat
+/-- bit pattern as 16 hex digits; every NaN prints as the canonical quiet NaN (sign and payload of a NaN are not compared) -/
+def fbits (x : Float) : String := if x.isNaN then "7ff8000000000000" else toHex 16 x.toBits.toNat
 def parseF (s : String) : Option Float := (parseHex s).map fun n => Float.ofBits n.toUInt64
 
 /-- position of a finite/infinite pattern on the number line of representable values -/
